@@ -144,3 +144,14 @@ def _default(sort):
     if sort == z3.BoolSort():
         return z3.BoolVal(False)
     return z3.Const(f"default_{sort.name()}", sort)
+
+
+def sym_range(*a):
+    """range() with a symbolic bound -> SymSeq of the integers 0..n-1"""
+    if len(a) == 1 and isinstance(a[0], S.SymReal):
+        n = SymDict._key(a[0])
+        return SymSeq("range", n, lambda k: S.SymReal(k))
+    return range(*a)
+
+
+sym_range.pyvc_pure = True
